@@ -22,11 +22,11 @@ Inm == {"absent", "match", "mismatch"}          \* If-None-Match
 Ims == {"absent", "match", "older"}             \* If-Modified-Since
 Ranges == {"absent", "bytes"}
 ClientAE == {"absent", "gzip", "br"}
-Rewrites == {"none", "strip"}                    \* /api/*:/$1
+Rewrites == {"none", "strip", "chain"}           \* strip: /api/*:/$1   chain: /api/*:/v1/$1 then /v1/*:/$1 (rules apply one after the other)
 AddReq == {"none", "xadded", "via"}              \* via: the client sends a Via header too
 AddQuery == {"none", "kv"}
 AddResp == {"none", "xresp", "vary"}             \* vary: the upstream sends a Vary header too
-UpAE == {"none", "gzip"}
+UpAE == {"none", "gzip", "none_r", "gzip_r"}     \* _r: the upstream was first configured with `br` and then reloaded with this setting
 States == {"cold", "hit", "hfp"}
 
 RangeS(s) == {s[i] : i \in DOMAIN s}
@@ -37,13 +37,13 @@ Fetching(c) == Cacheable(c) /\ c.state = "cold"
 Contact(c) == ~(Cacheable(c) /\ c.state = "hit")       \* a hit does not go to the upstream
 
 (* what the upstream must see *)
-UpPath(c) == IF c.rewrite = "strip" THEN "/res" ELSE "/api/res"
+UpPath(c) == IF c.rewrite \in {"strip", "chain"} THEN "/res" ELSE "/api/res"
 UpQueryBag(c) == BagOf(c.query \o (IF c.addquery = "kv" THEN <<"kv">> ELSE <<>>))
 UpInm(c) == IF Fetching(c) THEN "absent" ELSE c.inm
 UpIms(c) == IF Fetching(c) THEN "absent" ELSE c.ims
 (* Accept-Encoding: the configured override, else the client's; when the client sent none, Go's transport
    announces gzip on its own (named deviation TransparentGunzip) *)
-UpAEs(c) == IF c.upae = "gzip" THEN {"gzip"} ELSE IF c.ae = "absent" THEN {"absent", "gzip"} ELSE {c.ae}
+UpAEs(c) == IF c.upae \in {"gzip", "gzip_r"} THEN {"gzip"} ELSE IF c.ae = "absent" THEN {"absent", "gzip"} ELSE {c.ae}
 UpVia(c) == <<"1.1 cdn">> \o (IF c.addreq = "via" THEN <<"1.1 pike">> ELSE <<>>)
 
 ValidatorsMatch(c) == c.inm = "match" \/ (c.inm = "absent" /\ c.ims = "match")
@@ -62,22 +62,28 @@ ClientStatus(c) ==
   ELSE IF ~Cacheable(c) /\ ValidatorsMatch(c) THEN {200, 304}
   ELSE {200}
 
-AllCases ==
-  {[m |-> m, query |-> q, inm |-> i, ims |-> s, range |-> r, ae |-> a, rewrite |-> w, addreq |-> ar, addquery |-> aq,
-    addresp |-> ap, upae |-> ua, state |-> st] :
-     m \in Methods, q \in Queries, i \in Inm, s \in Ims, r \in Ranges, a \in ClientAE, w \in Rewrites, ar \in AddReq,
-     aq \in AddQuery, ap \in AddResp, ua \in UpAE, st \in States}
-
-Relevant(c) ==
-  /\ (c.state # "cold" => c.m \in {"GET", "HEAD"})
-  /\ (c.range = "bytes" => c.inm = "absent" /\ c.ims = "absent")
-  /\ (c.inm # "absent" /\ c.ims # "absent" => c.query \in {<<>>, <<"a1", "b2">>})
+(* the cases, built class by class so that no irrelevant combination is enumerated:
+   MS: hit / hit-for-pass states exist for cacheable methods only;  QV: Range is combined with no validator, both validators
+   together with two queries only;  the chained rewrite and the reloaded upstreams are combined with plain requests *)
+MS == {<<m, st>> \in Methods \X States : st = "cold" \/ m \in {"GET", "HEAD"}}
+QV == {<<q, i, s, r>> \in Queries \X Inm \X Ims \X Ranges :
+         /\ (r = "bytes" => i = "absent" /\ s = "absent")
+         /\ (i # "absent" /\ s # "absent" => q \in {<<>>, <<"a1", "b2">>})}
+QVplain == {x \in QV : x[2] = "absent" /\ x[3] = "absent" /\ x[1] \in {<<>>, <<"a1", "b2">>}}
+Feat == {<<w, ar, ap, ua>> \in {"none", "strip"} \X AddReq \X AddResp \X {"none", "gzip"} : TRUE}
+FeatSpecial == {<<w, "none", "none", ua>> : w \in Rewrites, ua \in UpAE} \ Feat
+Mk(ms, x, a, aq, f) ==
+  [m |-> ms[1], query |-> x[1], inm |-> x[2], ims |-> x[3], range |-> x[4], ae |-> a, rewrite |-> f[1], addreq |-> f[2],
+   addquery |-> aq, addresp |-> f[3], upae |-> f[4], state |-> ms[2]]
+Cases ==
+       {Mk(ms, x, a, aq, f) : ms \in MS, x \in QV, a \in ClientAE, aq \in AddQuery, f \in Feat}
+  \cup {Mk(ms, x, a, aq, f) : ms \in MS, x \in QVplain, a \in ClientAE, aq \in AddQuery, f \in FeatSpecial}
 
 VARIABLE l
 
 EmitInit ==
   /\ l = 0
-  /\ LET Q == SetToSeq({c \in AllCases : Relevant(c)})
+  /\ LET Q == SetToSeq(Cases)
      IN ndJsonSerialize(IOEnv.OUT, Q)
 EmitNext == FALSE /\ l' = l
 
